@@ -236,6 +236,8 @@ impl Check for C07 {
         let mut forged_disconnect: std::collections::HashSet<SocketAddr> = std::collections::HashSet::new();
         let mut forged_current_synack: std::collections::HashSet<SocketAddr> = std::collections::HashSet::new();
         let mut forged_any: std::collections::HashSet<SocketAddr> = std::collections::HashSet::new();
+        // addresses that were sent a forged frame carrying a GENUINE current nonce (only an on-path attacker knows it)
+        let mut on_path: std::collections::HashSet<SocketAddr> = std::collections::HashSet::new();
         let dt = c.dt_us.max(1000) as u64;
 
         for tick in 0..c.ticks {
@@ -297,6 +299,14 @@ impl Check for C07 {
                     FKind::Duplicate(_) => unreachable!(),
                 };
                 forged_any.insert(caddr);
+                let knows_nonce = match &f.kind {
+                    FKind::Syn { .. } | FKind::SynAck | FKind::Error(_) => Some(nonce) == cn,
+                    FKind::Ack => Some(nonce) == sn || (first_sn.is_some() && Some(nonce) == first_sn),
+                    _ => false,
+                };
+                if knows_nonce {
+                    on_path.insert(caddr);
+                }
                 // bookkeeping: forged frames that happen to carry the genuine nonce are on-path attacks
                 if f.to_server {
                     if matches!(f.kind, FKind::Ack) && Some(nonce) == sn {
@@ -482,7 +492,7 @@ impl Check for C07 {
             // acknowledgement connects the server carries the server nonce of the SYN-ACK the client accepted. A late
             // duplicate of the client's SYN that reaches a server which has meanwhile forgotten the connection must not
             // be completed into a second server-side connection by the client that still lives in the first one.
-            if !forged_any.contains(&a) {
+            if !on_path.contains(&a) {
                 let c_conn_seq = slot.events.iter().find(|(_, _, e)| matches!(e, CEv::Connect)).map(|p| p.0);
                 if let (Some(cseq), Some(mine)) = (c_conn_seq, my_nonce) {
                     let accepted = synacks_delivered_full.get(&a).and_then(|v| v.iter().filter(|(s, na, _)| *s < cseq && *na == mine).last().map(|p| p.2));
@@ -505,15 +515,17 @@ impl Check for C07 {
             // exactly one Connect on EACH side: the server's Connect follows the client's (the client acknowledges the
             // SYN-ACK that connects it), and once the client is connected and frames flow, the server's pending
             // entry must be promoted by one of the re-acknowledged SYN-ACK repeats (2 s apart)
-            if !forged_any.contains(&a) {
+            {
                 let c_conn = slot.events.iter().find(|(_, _, e)| matches!(e, CEv::Connect)).map(|p| (p.0, p.1));
                 let s_conn = w.server_events.iter().find(|(_, _, e)| matches!(e, SEv::Connect(x) if x == &a)).map(|p| (p.0, p.1));
                 if let Some((sseq, st)) = s_conn {
-                    if c_conn.map_or(true, |(cseq, _)| cseq > sseq) {
-                        return CaseResult::fail("oracle:c07:server_connected_before_client", format!("server reported Connect({a}) at t={st} us although client {k} had not connected (client Connect: {:?})", c_conn));
+                    // (a forged SYN with a nonce of the forger's own choice may open an attempt at the server, but
+                    // nobody can complete it: the client only acknowledges a SYN-ACK echoing its own nonce)
+                    if c_conn.map_or(true, |(cseq, _)| cseq > sseq) && !on_path.contains(&a) {
+                        return CaseResult::fail("oracle:c07:server_connected_before_client", format!("server reported Connect({a}) at t={st} us although client {k} had not connected (client Connect: {:?}); no forged frame carried a genuine nonce", c_conn));
                     }
                 }
-                if let (Some((_, tc)), None) = (c_conn, s_conn) {
+                if let (Some((_, tc)), None, false) = (c_conn, s_conn, forged_any.contains(&a)) {
                     // time from which every datagram between the two was delivered promptly
                     let mut t0 = tc;
                     for r in w.wire.iter().filter(|r| (r.from == a && r.to == w.server_addr) || (r.from == w.server_addr && r.to == a)) {
